@@ -113,6 +113,21 @@ func (env *Env) footprintOf(c *Contract) (*footprint, error) {
 					continue
 				}
 			}
+			if id != nil && id.Name == "fieldof" && len(x.Args) == 2 {
+				// fieldof(type(T), f): field f of every object of struct type T
+				tl, ok1 := x.Args[0].(*ETypeLit)
+				fn, ok2 := x.Args[1].(*EIdent)
+				if ok1 && ok2 {
+					keys, err := e.fieldKeys(tl.T, fn.Name, env.pkgPath, env.imports)
+					if err != nil {
+						return nil, err
+					}
+					for _, k := range keys {
+						fp.whole[k[0]] = true
+					}
+					continue
+				}
+			}
 			if id != nil && id.Name == "contents" && len(x.Args) == 1 {
 				v, err := env.eval(x.Args[0])
 				if err != nil {
@@ -475,4 +490,26 @@ func ghostSymbols(t string) []string {
 		}
 	}
 	return out
+}
+
+// fieldKeys: heap keys (and sorts) of field `name` of struct type te.
+func (e *Enc) fieldKeys(te *TypeExpr, name, pkgPath string, imports map[string]string) ([][2]string, error) {
+	gt, err := e.resolveGoType(te, pkgPath, imports)
+	if err != nil {
+		return nil, err
+	}
+	stt, ok := gt.Underlying().(*types.Struct)
+	if !ok {
+		return nil, fmt.Errorf("fieldof: %s is not a struct type", typeStr(gt))
+	}
+	path, ft, ok := findField(stt, name)
+	if !ok {
+		return nil, fmt.Errorf("fieldof: no field %s in %s", name, typeStr(gt))
+	}
+	var out [][2]string
+	for _, lf := range e.TI.shape(ft) {
+		k, srt := locKeySort(&Loc{Kind: 'F', Key: typeStr(gt), Path: path}, lf)
+		out = append(out, [2]string{k, srt})
+	}
+	return out, nil
 }
